@@ -489,6 +489,16 @@ func (x *Exec) applyContract(st *State, in ssa.Instruction, fc *FuncContract, ca
 		// result is an uninterpreted function of the arguments
 		for i := 0; i < results.Len(); i++ {
 			fname := fmt.Sprintf("pure_%s_%d", mangle(name), i)
+			named := false
+			if i < len(fc.PureNames) && fc.PureNames[i] != "_" {
+				for _, sf := range x.CS.SpecFuns {
+					if sf.Name == fc.PureNames[i] {
+						x.W.declareSpecFun(x, sf)
+						fname = "sf_" + sf.Name
+						named = true
+					}
+				}
+			}
 			var sorts []string
 			var ts []Term
 			for k, a := range args {
@@ -501,7 +511,9 @@ func (x *Exec) applyContract(st *State, in ssa.Instruction, fc *FuncContract, ca
 				ts = append(ts, t)
 			}
 			rs := x.D.SortOf(results.At(i).Type())
-			x.D.Fun(fname, sorts, rs)
+			if !named {
+				x.D.Fun(fname, sorts, rs)
+			}
 			r := app(rs, fname, ts...)
 			st.Assume(x.D.WF(r, results.At(i).Type(), st.top, 0))
 			res = append(res, r)
@@ -517,6 +529,10 @@ func (x *Exec) applyContract(st *State, in ssa.Instruction, fc *FuncContract, ca
 	}
 	env2.old = old
 	bindPos(env2, res)
+	// the callee's ghost variables are unknown at the call site
+	for _, g := range fc.Ghosts {
+		env2.binds[g.Name] = Bound{V: x.D.Fresh("cg_"+g.Name, g.Sort)}
+	}
 	for _, cl := range fc.Ensures {
 		st.Assume(x.evalBool(env2, cl))
 	}
